@@ -9,15 +9,16 @@ def run (_tag : String) (kv : KV) : String :=
   let P := Facts.kill
   let proto := if kv.getD "proto" "netrpc" = "netrpc" then Proto.netrpc else Proto.grpc
   let b := kv.getD "beh" "fast"
-  let beh : Beh := if b = "fast" ∨ b = "fast500" ∨ b = "fastlost" then .exitsFast else if b = "slow" then .exitsSlow
+  let beh : Beh := if b = "fast" ∨ b = "fast500" ∨ b = "fastlost" ∨ b = "busy1000" then .exitsFast else if b = "slow" then .exitsSlow
     else if b = "ignores" then .ignores else if b = "frozen" then .frozen else .deadAlready
   let hasAddr := b != "neverstarted" && b != "neverstarted2"
-  let o := kill P proto beh (b = "fastlost") hasAddr true
+  -- `startfails`: a custom runner whose Start returned an error after it had created the process
+  let o := if b = "startfails" then killStartFailed P else if b = "busy1000" ∧ proto = .grpc then killBusy P 1000 else kill P proto beh (b = "fastlost") hasAddr true
   -- repeated / concurrent Kills: the later ones find a closed client (or no runner): they can only add a force kill
   let pat := kv.getD "pattern" "single"
   -- net/rpc, plugin exiting / already gone: the host's Close may find the session shut down before it has closed its
   -- remaining streams (`killGonePeer`): the forced flag can be set although the plugin left on its own
-  let goneRace := proto = .netrpc && (b = "fast" || b = "fast500" || b = "fastlost" || b = "dead")
+  let goneRace := proto = .netrpc && (b = "fast" || b = "fast500" || b = "fastlost" || b = "dead" || b = "busy1000")
   let forced := if pat = "concurrent" || goneRace then "any" else showBool o.forced
   -- a reattached client learns of the exit by polling once a second
   let slack := if kv.getD "launch" "cmd" = "reattach" then 1200 else 0
